@@ -419,3 +419,67 @@ pub fn run_enc(args: &[String]) {
     out.finish();
     println!("{}", json!({"records": n}));
 }
+
+// -------------------------------------------------------------------------------------------------
+// the command-line model checker (tools/mc) end to end: btor2 text in, verdict / witness text out
+
+pub fn run_cli(args: &[String]) {
+    let mut out = Out::new(flag(args, "--out").expect("--out"));
+    let out_path = flag(args, "--out").unwrap().to_string();
+    let work = std::path::Path::new(&out_path).parent().unwrap().to_string_lossy().to_string();
+    let bin = flag(args, "--bin").expect("--bin").to_string();
+    let seed = env_seed();
+    for s in 0..flag_u(args, "--systems", 0) {
+        let mut rng = seed_rng(seed.wrapping_mul(9000011).wrapping_add(s));
+        let mut ctx = Context::default();
+        // every third system has no states at all (the CLI then reduces BMC to a single cycle)
+        let sys = if s % 3 == 0 {
+            let mut sys = TransitionSystem::new(format!("stateless{s}"));
+            let a = ctx.bv_symbol("a", 2);
+            let b = ctx.bv_symbol("b", 1);
+            sys.add_input(&ctx, a); sys.add_input(&ctx, b);
+            let cfg = GenCfg::small();
+            let bad = gen_bv(&mut ctx, &mut rng, &cfg, 1, 2, &[a, b], &[]);
+            sys.bad_states.push(bad);
+            sys
+        } else {
+            let mut cfg = SysCfg::tiny();
+            cfg.max_bits = 5; cfg.all_next = true; cfg.arrays = false; cfg.max_inputs = 1;
+            let mut g = gen_sys(&mut ctx, &mut rng, &cfg, "").sys;
+            g.constraints.clear(); // the CLI checks constraint satisfiability with an assert_eq! (documented)
+            g
+        };
+        let text = match guarded(|| patronus::btor2::serialize_to_str(&ctx, &sys)) { Ok(t) => t, Err(_) => continue };
+        let path = format!("{work}/cli_{}_{s}.btor", std::process::id());
+        std::fs::write(&path, &text).unwrap();
+        let engine = if s % 2 == 0 { "bmc" } else { "pdr" };
+        let o = std::process::Command::new(&bin).args(["--solver", "z3", "--engine", engine, &path]).output();
+        let _ = std::fs::remove_file(&path);
+        let (kind, msg, wit) = match o {
+            Ok(o) => {
+                let so = String::from_utf8_lossy(&o.stdout).to_string();
+                let se = String::from_utf8_lossy(&o.stderr).to_string();
+                let body: String = so.lines().filter(|l| !l.starts_with("[warn]")).collect::<Vec<_>>().join("\n");
+                if o.status.code() == Some(0) && body.trim() == "unsat" { ("success", String::new(), no_witness()) }
+                else if o.status.code() == Some(0) && body.trim_start().starts_with("sat") {
+                    match guarded(|| patronus::btor2::parse_witness(&mut body.as_bytes())) {
+                        Ok(Ok(w)) => ("fail", String::new(), witness_json(&ctx, &sys, &w)),
+                        _ => ("err", "witness text could not be read back".into(), no_witness()),
+                    }
+                }
+                else if se.contains("panicked") { ("panic", se.lines().find(|l| l.contains("panicked")).unwrap_or("").chars().take(160).collect::<String>() + " | " + &se.lines().skip_while(|l| !l.contains("panicked")).nth(1).unwrap_or("").chars().take(120).collect::<String>(), no_witness()) }
+                else { ("err", format!("exit {:?}: {}", o.status.code(), se.chars().take(200).collect::<String>()), no_witness()) }
+            }
+            Err(e) => ("err", format!("spawn: {e}"), no_witness()),
+        };
+        let k = if sys.states.is_empty() { 0 } else { 25 };
+        out.put(&json!({"ev":"Sys","id":format!("s{s}"),"sid":s,"sys":export_system(&ctx, &sys, false)}));
+        // witnesses printed by the CLI name states / inputs as the (re-parsed, simplified) system does; names are
+        // compared by Trace_MC against the system the text was written from
+        out.put(&json!({"ev":"Run","id":format!("cli{s}"),"sid":s,"cfg":{"engine":engine,"k":k,"profile":"z3","individually":0,"simplified":1,"no_cores":0,"model_seed":-1,"core_mode":"solver","fault_at":0,"fault_kind":"","fault_len":0},
+                        "outcome":{"kind":kind,"msg":msg},"witness":wit,"sys":{},"has_sys":0,"events":[],"nresp":0,"script":{"ok":1,"cmds":[],"err":""},"ms":0,"state0":[],"cli":1,"text":text.lines().take(40).collect::<Vec<_>>()}));
+    }
+    let n = out.n;
+    out.finish();
+    println!("{}", json!({"records": n}));
+}
